@@ -75,10 +75,14 @@ struct ConcOutcome {
 
 type Job = Box<dyn FnOnce() + Send>;
 
+/// How many harness threads have emitted through a queuing sink so far in this process (the first veteran is number 0).
+static EMITTERS: AtomicU64 = AtomicU64::new(0);
+
 /// The process's long-lived producer threads (harness threads for good), started one by one as they are first needed.
 fn veteran(i: usize) -> &'static std::sync::mpsc::Sender<Job> {
     static V: [std::sync::OnceLock<std::sync::mpsc::Sender<Job>>; 4] = [std::sync::OnceLock::new(), std::sync::OnceLock::new(), std::sync::OnceLock::new(), std::sync::OnceLock::new()];
     V[i % 4].get_or_init(|| {
+        EMITTERS.fetch_add(1, Ordering::SeqCst);
         let (tx, rx) = std::sync::mpsc::channel::<Job>();
         std::thread::Builder::new()
             .name(format!("veteran-producer-{}", i % 4))
@@ -103,7 +107,11 @@ fn run_conc(cfg: &ConcCfg, rng: &mut Rng, sid: u64) -> ConcOutcome {
     // scratch queuing sink and end - whatever a library keys by "the n-th thread that ever emitted" (slots, stripes,
     // per-thread caches folded modulo a table size) then pairs this history's newcomers with the veteran
     if rng.chance(1, 4) {
-        let k = *rng.pick(&[7usize, 15, 31, 63, 63, 127, 255]);
+        // (the harness counts the threads it has let emit so far; the count is chosen so that this history's first
+        // newcomer is 16, 32, 64, 128 or 256 emitting threads younger than the first veteran)
+        let m = *rng.pick(&[16u64, 32, 64, 64, 128, 256]);
+        let next = EMITTERS.load(Ordering::SeqCst);
+        let k = ((m - (next % m)) % m) as usize;
         let scratch = QueuingMetricSink::from(cadence::NopMetricSink);
         for i in 0..k {
             let h = scratch.clone();
@@ -112,6 +120,7 @@ fn run_conc(cfg: &ConcCfg, rng: &mut Rng, sid: u64) -> ConcOutcome {
                 let _ = h.emit(&format!("burn.{}:1|c", i));
             })
             .join();
+            EMITTERS.fetch_add(1, Ordering::SeqCst);
         }
         drop(scratch);
         let _ = await_no_library_thread();
@@ -282,6 +291,7 @@ fn run_conc(cfg: &ConcCfg, rng: &mut Rng, sid: u64) -> ConcOutcome {
             })).expect("veteran thread gone");
             veteran_results.push(rx);
         } else {
+            EMITTERS.fetch_add(1, Ordering::SeqCst);
             joins.push(std::thread::Builder::new().name(format!("producer-{}", p)).spawn(work).unwrap());
         }
     }
